@@ -757,12 +757,16 @@ type c07Cfg struct {
 	Server string `json:"server"` // "rs" | "os"
 	Alloc  bool   `json:"alloc"`
 	MaxTx  uint32 `json:"maxtx,omitempty"`
+	RO     bool   `json:"readonly,omitempty"` // os-backed server with ReadOnly()
 }
 
 func (c c07Cfg) String() string {
 	s := c.Server
 	if c.Alloc {
 		s += "+alloc"
+	}
+	if c.RO {
+		s += "+readonly"
 	}
 	if c.MaxTx != 0 {
 		s += fmt.Sprintf("+maxtx%d", c.MaxTx)
@@ -834,6 +838,9 @@ func (l *c07Live) start() {
 		}
 		if l.cfg.MaxTx != 0 {
 			opts = append(opts, WithMaxTxPacket(l.cfg.MaxTx))
+		}
+		if l.cfg.RO {
+			opts = append(opts, ReadOnly())
 		}
 		sv, err := NewServer(conn, opts...)
 		if err != nil {
@@ -1571,7 +1578,7 @@ func c07Bucket(n, total int) string {
 func init() {
 	reg.Part("C07/streams", func(c *reg.Ctx) *reg.Result {
 		res := reg.NewResult(c.Part)
-		cfg := c07Cfg{Server: c.Arg("server", "rs"), Alloc: c.Arg("alloc", "0") == "1", MaxTx: uint32(c.ArgInt("maxtx", 0))}
+		cfg := c07Cfg{Server: c.Arg("server", "rs"), Alloc: c.Arg("alloc", "0") == "1", MaxTx: uint32(c.ArgInt("maxtx", 0)), RO: c.Arg("ro", "0") == "1"}
 		k := &c07Checker{cfg: cfg, bound: c.ArgInt("bound", 0), burst: c.Arg("mode", "") == "burst", res: res, refs: map[string]*c07Outcome{}}
 		sessions := c07Sessions()
 		// self-check of the classifier and the builder on the unmutated sessions
@@ -1686,6 +1693,8 @@ func init() {
 			}
 			// the same streams written in one burst (requests race with the OPEN that creates their handle, so
 			// only Serve-returns / no panic / no goroutine left / everything released are judged)
+			// a read-only os-backed server: the gate in front of the workers sees every mutated packet too
+			j("os read-only alloc=0 db0 all mutations", "os", "0", map[string]string{"ro": "1"}, 16, 100)
 			j("rs alloc=1 db0 one burst", "rs", "1", map[string]string{"mode": "burst"}, 16, 100)
 			j("os alloc=1 db0 one burst", "os", "1", map[string]string{"mode": "burst"}, 16, 100)
 			// D8: allocator with a tx packet limit above the page size
